@@ -644,3 +644,207 @@ Proof.
   pose proof (persist_commit_state (run_state pre) h (m_dir r) (m_msg r) (m_seq r) F OK) as P.
   cbn zeta in P. rewrite K in P. tauto.
 Qed.
+
+(* ------------------------------------------------------------------ rows never exceed the counter (ascending use) *)
+
+(* DESIGN.md's form of "row implies counter": the stored counter of a direction is at least every
+   stored number of that direction.  It is an invariant only of histories that store numbers in
+   ascending order per session and direction (what the session engine does); C13 allows any order. *)
+Definition below (t : tables) : Prop :=
+  forall r c, In r (t_messages t) -> counter t (m_sid r) = Some c ->
+    (m_dir r = OUTBOUND -> m_seq r <= fst c) /\ (m_dir r = INBOUND -> m_seq r <= snd c).
+
+Definition asc_stepb (st : rstate) (o : op) : bool :=
+  match o with
+  | OPersist h dir msg =>
+      match find_seq_no msg, counter (cur (r_db st)) (key (handle (r_hs st) h)) with
+      | Some n, Some c => ctr_dir dir c <=? n
+      | _, _ => true
+      end
+  | _ => true
+  end.
+
+Fixpoint ascending (st : rstate) (ops : list op) : bool :=
+  match ops with
+  | [] => true
+  | o :: ops' => asc_stepb st o && ascending (stepf st o) ops'
+  end.
+
+Definition sids_known (t : tables) : Prop := forall r, In r (t_messages t) -> m_sid r < next_sid t.
+Definition handles_known (st : rstate) : Prop := forall s, In s (r_hs st) -> key s < next_sid (cur (r_db st)).
+
+Record asc_inv (st : rstate) : Prop := mkAI {
+  ai_below : below (cur (r_db st));
+  ai_sids : sids_known (cur (r_db st));
+  ai_hs : handles_known st
+}.
+
+Lemma next_sid_pos t : 1 <= next_sid t.
+Proof. unfold next_sid. lia. Qed.
+
+Lemma handle_known st h : handles_known st -> key (handle (r_hs st) h) < next_sid (cur (r_db st)).
+Proof.
+  intros H. unfold handle. destruct (nth_in_or_default h (r_hs st) dummy_session) as [I|E].
+  - now apply H.
+  - rewrite E. cbn. pose proof (next_sid_pos (cur (r_db st))). lia.
+Qed.
+
+Lemma ids_bound l : forall k r, ids_from k l -> In r l -> k <= s_id r < k + Z.of_nat (length l).
+Proof.
+  induction l as [|x l IH]; intros k r H I; [destruct I|].
+  destruct H as [Hx Hl]. cbn [length]. destruct I as [->|I]; [lia|].
+  specialize (IH (k + 1) r Hl I). lia.
+Qed.
+
+Lemma next_sid_upd f sid t : next_sid (upd_sessions f sid t) = next_sid t.
+Proof. unfold next_sid, upd_sessions. cbn. now rewrite map_length. Qed.
+
+Lemma next_sid_persist_tables t n sid dir msg : next_sid (persist_tables t n sid dir msg) = next_sid t.
+Proof. unfold persist_tables. destruct (dir =? OUTBOUND); rewrite next_sid_upd; reflexivity. Qed.
+
+Lemma next_sid_set_tables t sid o i : next_sid (set_tables t sid o i) = next_sid t.
+Proof. unfold next_sid, set_tables. cbn. now rewrite map_length. Qed.
+
+Lemma set_seq_num_key s o i d : key (snd (fst (set_seq_num s o i d))) = key s.
+Proof.
+  unfold set_seq_num. destruct o as [v|], i as [w|];
+    repeat match goal with |- context [?a <=? 0] => destruct (a <=? 0) end; reflexivity.
+Qed.
+
+Lemma in_set_nth {A} (x y : A) l : forall n, In x (set_nth n y l) -> x = y \/ In x l.
+Proof.
+  induction l as [|a l IH]; intros n H; destruct n; cbn in H; try tauto.
+  - destruct H as [<-|H]; [now left|right; now right].
+  - destruct H as [<-|H]; [right; now left|]. destruct (IH n H); [now left|right; now right].
+Qed.
+
+Lemma stepf_create_hs st tg sd :
+  (has_session (cur (r_db st)) tg sd = false
+   /\ r_hs (stepf st (OCreate tg sd)) = r_hs st ++ [mkSess (next_sid (cur (r_db st))) tg sd 1 1]
+   /\ cur (r_db (stepf st (OCreate tg sd))) =
+      mkT (t_sessions (cur (r_db st)) ++ [mkS (next_sid (cur (r_db st))) tg sd 0 0]) (t_messages (cur (r_db st))))
+  \/ (exists r, In r (t_sessions (cur (r_db st)))
+      /\ r_hs (stepf st (OCreate tg sd)) = r_hs st ++ [session_of_row r]
+      /\ cur (r_db (stepf st (OCreate tg sd))) = cur (r_db st)).
+Proof.
+  unfold stepf. cbn [step]. destruct (has_session (cur (r_db st)) tg sd) eqn:H.
+  - right. destruct (create_or_load_existing (r_db st) tg sd H) as [r [I [_ [_ [E _]]]]].
+    exists r. rewrite E. cbn. auto.
+  - left. destruct (create_or_load_new (r_db st) tg sd H) as [E _]. rewrite E. cbn. auto.
+Qed.
+
+Lemma step_asc_inv st o :
+  db_wf (r_db st) -> clean (r_db st) -> asc_inv st -> asc_stepb st o = true -> asc_inv (stepf st o).
+Proof.
+  intros [W _] C [B S H] A.
+  destruct o as [tg sd|h dir msg|h o i|h dir lo hi|h dir n| |hs' dir|msg|]; try (constructor; assumption).
+  - (* create_or_load *)
+    destruct (stepf_create_hs st tg sd) as [[_ [Eh Ec]]|[r0 [Ir [Eh Ec]]]].
+    + assert (N : next_sid (cur (r_db (stepf st (OCreate tg sd)))) = next_sid (cur (r_db st)) + 1).
+      { rewrite Ec. unfold next_sid. cbn. rewrite app_length. cbn. lia. }
+      constructor.
+      * intros r c I Ct. rewrite Ec in I, Ct. cbn [t_messages] in I.
+        unfold counter in Ct. cbn [t_sessions] in Ct. rewrite find_app in Ct.
+        destruct (find (fun r0 => s_id r0 =? m_sid r) (t_sessions (cur (r_db st)))) as [x|] eqn:F.
+        -- apply (B r c I). unfold counter. now rewrite F.
+        -- cbn [s_id] in Ct. destruct (next_sid (cur (r_db st)) =? m_sid r) eqn:Q; [|discriminate].
+           apply Z.eqb_eq in Q. specialize (S r I). lia.
+      * intros r I. rewrite N. rewrite Ec in I. cbn [t_messages] in I. specialize (S r I). lia.
+      * intros s I. rewrite N. rewrite Eh in I. apply in_app_iff in I. destruct I as [I|[<-|[]]].
+        -- specialize (H s I). lia.
+        -- cbn. lia.
+    + constructor; rewrite ?Ec; auto.
+      intros s I. rewrite Ec. rewrite Eh in I. apply in_app_iff in I. destruct I as [I|[<-|[]]]; [now apply H|].
+      cbn. destruct W as [_ Ids _]. pose proof (ids_bound _ _ _ Ids Ir) as Bd. unfold next_sid. lia.
+  - (* persist_msg *)
+    assert (Eh : r_hs (stepf st (OPersist h dir msg)) = r_hs st).
+    { unfold stepf. cbn [step]. destruct (persist_msg _ _ _ _). reflexivity. }
+    pose proof (handle_known st h H) as Hk.
+    pose proof (stepf_persist_db st h dir msg) as Ed.
+    destruct (persist_cases msg (handle (r_hs st) h) dir (r_db st)) as [[E _]|[n [F [L [E _]]]]].
+    + constructor; unfold handles_known; rewrite ?Eh, Ed, E; assumption.
+    + cbn [asc_stepb] in A. rewrite F in A.
+      set (sid := key (handle (r_hs st) h)) in *.
+      constructor; unfold handles_known; rewrite ?Eh, Ed, E.
+      * intros r c I Ct. rewrite persist_tables_messages in I. rewrite counter_persist_tables in Ct.
+        destruct (counter (cur (r_db st)) (m_sid r)) as [c0|] eqn:C0; [|discriminate]. cbn in Ct.
+        destruct (m_sid r =? sid) eqn:Q.
+        -- apply Z.eqb_eq in Q. rewrite Q in C0. rewrite C0 in A. unfold ctr_dir in A.
+           apply in_app_iff in I. destruct I as [I|[<-|[]]].
+           ++ destruct (B r c0 I) as [B1 B2]; [now rewrite Q|].
+              destruct (dir =? OUTBOUND); apply Z.leb_le in A; inversion Ct; subst c; cbn; split; intros D;
+                try (specialize (B1 D)); try (specialize (B2 D)); lia.
+           ++ cbn [m_dir m_seq]. destruct (dir =? OUTBOUND) eqn:D; inversion Ct; subst c; cbn; split; intros D';
+                try lia; unfold INBOUND, OUTBOUND in *; subst dir; discriminate.
+        -- inversion Ct. subst c. apply in_app_iff in I. destruct I as [I|[<-|[]]].
+           ++ apply (B r c0 I C0).
+           ++ cbn in Q. rewrite Z.eqb_refl in Q. discriminate.
+      * intros r I. rewrite next_sid_persist_tables. rewrite persist_tables_messages in I.
+        apply in_app_iff in I. destruct I as [I|[<-|[]]]; [now apply S|exact Hk].
+      * intros s I. rewrite next_sid_persist_tables. now apply H.
+  - (* set_seq_num *)
+    assert (Eh : forall s, In s (r_hs (stepf st (OSetSeq h o i))) -> key s < next_sid (cur (r_db st))).
+    { unfold stepf. cbn [step].
+      pose proof (set_seq_num_key (handle (r_hs st) h) o i (r_db st)) as K.
+      destruct (set_seq_num _ _ _ _) as [[d' s'] e]. cbn [fst snd r_hs] in *.
+      intros s I. apply in_set_nth in I. destruct I as [->|I]; [|now apply H].
+      rewrite K. now apply handle_known. }
+    pose proof (stepf_set_db st h o i) as Ed. rewrite set_seq_num_db in Ed.
+    destruct (set_args (handle (r_hs st) h) o i) as [[no ni]|].
+    + set (sid := key (handle (r_hs st) h)) in *.
+      constructor; unfold handles_known; rewrite Ed; cbn [cur].
+      * intros r c I Ct. rewrite counter_set_tables in Ct. cbn [set_tables t_messages] in I. unfold del_from in I.
+        apply filter_In in I. destruct I as [I K2]. apply filter_In in I. destruct I as [I K1].
+        destruct (counter (cur (r_db st)) (m_sid r)) as [c0|] eqn:C0; [|discriminate]. cbn in Ct.
+        destruct (m_sid r =? sid) eqn:Q; inversion Ct; subst c; [|apply (B r c0 I C0)].
+        cbn [fst snd andb] in *. split; intros D; rewrite D, Z.eqb_refl in *; rewrite ?andb_true_r in *;
+          apply negb_true_iff, Z.leb_gt in K1 || apply negb_true_iff, Z.leb_gt in K2; lia.
+      * intros r I. rewrite next_sid_set_tables. cbn [set_tables t_messages] in I. unfold del_from in I.
+        apply filter_In in I. destruct I as [I _]. apply filter_In in I. destruct I as [I _]. now apply S.
+      * intros s I. rewrite next_sid_set_tables. now apply Eh.
+    + constructor; unfold handles_known; rewrite Ed; assumption.
+  - (* reopen *)
+    assert (Ec : cur (r_db (stepf st OReopen)) = cur (r_db st)) by (rewrite stepf_reopen_db, cur_reopen; now symmetry).
+    constructor; unfold handles_known; rewrite Ec; assumption.
+Qed.
+
+Lemma run_asc_inv ops : forall st,
+  db_wf (r_db st) -> clean (r_db st) -> asc_inv st -> ascending st ops = true -> asc_inv (run_from st ops).
+Proof.
+  induction ops as [|o ops IH]; intros st W C I A; [exact I|].
+  cbn [ascending] in A. apply andb_prop in A. destruct A as [A1 A2].
+  cbn [run_from fold_left]. apply IH; [now apply step_wf|now apply step_clean|now apply step_asc_inv|exact A2].
+Qed.
+
+Lemma ascending_firstn ops : forall st j, ascending st ops = true -> ascending st (firstn j ops) = true.
+Proof.
+  induction ops as [|o ops IH]; intros st j A; destruct j; try reflexivity.
+  cbn [ascending firstn] in *. apply andb_prop in A. destruct A as [A1 A2]. rewrite A1. cbn. now apply IH.
+Qed.
+
+Lemma asc_inv_init : asc_inv init.
+Proof. constructor; [intros r c I|intros r I|intros s I]; cbn in I; destruct I. Qed.
+
+(* C08 (3), DESIGN form, for ascending histories: in every recovered state every stored number is
+   at most the stored counter of its session and direction *)
+Lemma row_le_counter_partial ops k :
+  ascending init ops = true ->
+  let '(d, done, died) := run_crash init ops k 0 in below (cur (reopen d)).
+Proof.
+  intros A. pose proof (crash_atomic ops k) as At.
+  destruct (run_crash init ops k 0) as [[d done] died].
+  destruct At as [_ [E _]]. rewrite E. rewrite run_state_from.
+  apply run_asc_inv; [split; apply wf_empty|reflexivity|apply asc_inv_init|now apply ascending_firstn].
+Qed.
+
+(* ... and only of those: store 5, then 3 (outbound, one session) *)
+Definition desc_witness : list op :=
+  [OCreate [65%N] [66%N]; OPersist 0 1 [1; 51; 52; 61; 53; 1]%N; OPersist 0 1 [1; 51; 52; 61; 51; 1]%N].
+
+Lemma row_le_counter_refuted :
+  exists ops, ascending init ops = false /\ ~ below (cur (r_db (run_state ops))).
+Proof.
+  exists desc_witness. split; [vm_compute; reflexivity|].
+  intros B. specialize (B (mkM 5 1 1 [1; 51; 52; 61; 53; 1]%N) (3, 0)). vm_compute in B.
+  destruct B as [B _]; [left; reflexivity|reflexivity|]. apply B; reflexivity.
+Qed.
